@@ -8,10 +8,7 @@ WHY = {
  "C04-m1": "C04 does not claim complex matrices; the change is caught by C11 (sparse read of a big-endian complex matrix)",
  "C04-m2": "scipy.sparse inputs are outside the claim (SciPy's COO internals cannot carry symbolic values)",
  "C06-m1": "cbcheck (effective-mass bookkeeping on eigh/pinv of concrete models, report printing) is outside the claim",
- "C13-m1": "wtdmig/rddmig (pandas index machinery) are outside the claim",
- "C13-m2": "wtcoordcards/rdcord2cards (DataFrame based) are outside the claim",
  "C14-m1": "spherical branch (atan2/sin/cos of symbolic values) is outside the claim",
- "C18-m1": "make_uset (pandas construction of the table) is outside the claim; the claim starts from a USET table",
  "C18-m3": "locate.mat_intersect searches byte views of concrete arrays; no symbolic encoding in reach",
 }
 
